@@ -359,6 +359,8 @@ class Scenario:
             "func_body": "test eax, eax\nje .Lz\nmov eax, %d\n.Lz:\nret" % k,
             "func_simple": "mov eax, %d\nret" % k,
             "decline": "<decline>",
+            "trail_label": "mov eax, %d\ntl_%d:" % (k, mi),
+            "trail_label_data": ".byte %d\ntl_%d:" % (k & 0xFF, mi),
             "alias_data": "jmp .Lskip\nt1_%d:\nt2_%d:\n.byte %d\n.Lskip:\nmov eax, %d" % (mi, mi, k & 0xFF, k),
         }
         if name.startswith("jmp:"):
